@@ -33,7 +33,7 @@
 //	        result: ok | basic-err:<class> | err:<class> | panic:<class> | err:badop | err:unmodelled
 //	qfile:  f=<hex body> | l=<hex listing> | err:file | err:package
 //	qpaths: p=<path,path,...> | err:query
-//	pmut:   <rejected|ok> v=<value read back>
+//	pmut:   ok v=<state read back> r=<state the realm read in the same tx> | rejected:<deploy|call> v=<state read back>
 //
 // oracle (independent; plain maps; evaluates the property statement on what
 // the queries return, never looks at the Lean model):
